@@ -37,9 +37,8 @@ ASSUMPTIONS = [
     'functions that are transcendental / float-only (except at their exact points), IRR/XIRR/XNPV/VDB/YEARFRAC/PI/SQRTPI, '
     'SUMIF(S) and the volatile ones are outside the model: cells whose evaluation calls them are skipped '
     '(the driver answers unsupported:<NAME>); so are fractional powers, times of day, non-ASCII UPPER/LOWER, '
-    'MATCH with an approximate match type over a lookup array that holds an error or an empty cell '
-    '(Python sorted() / list != vs. the "no descent" test of Model/C15), exponent texts in base conversion (Model/C19 grammar), '
-    'POWER(<text that is no number>, <error>) (Model/Value.power returns the error, the code #VALUE!)',
+    'exponent texts in base conversion (Model/C19 grammar) and what Model/C15 itself leaves unmodelled (MATCH with an '
+    'approximate match type over a lookup array of 64 or more cells that is not one run)',
     'the evaluator hands the NATIVE Python result of COUNT/COUNTA/MAX/MIN/IS* on unchanged: = / <> of two natives follows '
     'Python == (known finding D57 of C09, reachable through formulas: =COUNT(1)=ISBLANK(F7) is TRUE) and COUNT counts a native '
     'bool (COUNT(FALSE,ISODD(11)) = 1); the value universe of the models has no native values: classified (res.known D57), not reported',
@@ -451,6 +450,10 @@ class Gen:
         if r < 0.3:
             op = rng.choice(['+', '-', '*', '/', '+', '-', '*', '^'])
             if op == '^':
+                if rng.random() < 0.1:
+                    txt = ('str', rng.choice(['ab', 'x y', 'AB', 'q']))
+                    l, r = rng.choice([(txt, self.err_expr()), (self.err_expr(), txt), (txt, self.int_lit(0, 3))])
+                    return ('bin', '^', l, r)
                 return ('bin', '^', self.gen('num', d - 1), self.int_lit(-2, 3))
             return ('bin', op, self.gen('num', d - 1), self.gen('num', d - 1))
         if r < 0.36:
@@ -620,6 +623,11 @@ class Gen:
         if name == 'SUMPRODUCT' and len(args) == 2 and rng.random() < 0.7:
             w, h = rng.choice([1, 2]), rng.choice([1, 2, 3])
             args = [self.rng_ref(cols=w, rows=h), self.rng_ref(cols=w, rows=h)]
+        if name == 'POWER' and rng.random() < 0.12:
+            # `validate_args` casts `number` before it looks at `power`: a text that is no number with an error
+            txt = ('str', rng.choice(['ab', 'x y', 'AB', 'q', ' x ', 'hello world']))
+            args = rng.choice([[txt, self.err_expr()], [self.err_expr(), txt], [txt, txt], [self.err_expr(), self.err_expr()],
+                               [txt, self.int_lit(0, 3)], [self.blank_ref(), self.err_expr()]])
         if name == 'COUNTIFS':
             h = rng.choice([2, 3])
             n = rng.choice([1, 2])
@@ -742,6 +750,48 @@ def gen_workbook(rng):
                 g = Gen(rng, sheets, by_sheet, kinds, name_targets, s)
                 kind = rng.choice(['num', 'num', 'num', 'text', 'bool', 'any', 'date'])
                 trees[a] = g.gen(kind, rng.choice([1, 2, 2, 3, 3, 4]))
+            cells[a] = {'f': '=' + render(trees[a])}
+    if rng.random() < 0.12:
+        # a lookup column with sorted / unsorted numbers, texts, booleans, EMPTY and ERROR cells, and MATCH over it
+        # with every match type (the approximate ones run `sorted()` and a list `!=` over the column)
+        ls = rng.choice(sheets)
+        h = rng.choice([2, 3, 4, 4])
+        base = sorted(rng.sample(range(-3, 12), h))
+        if rng.random() < 0.3:
+            base.reverse()
+        elif rng.random() < 0.25:
+            rng.shuffle(base)
+        for i, v in enumerate(base):
+            a = f'{ls}!E{i + 1}'
+            r = rng.random()
+            if r < 0.5:
+                cells[a] = v
+            elif r < 0.68:
+                continue                                           # an empty cell of the column
+            elif r < 0.86:
+                trees[a] = rng.choice([('call', 'NA', []), ('bin', '/', ('num', '1'), ('num', '0')), ('err', '#NUM!'),
+                                       ('err', '#REF!')])
+                cells[a] = {'f': '=' + render(trees[a])}
+            elif r < 0.93:
+                cells[a] = rng.choice(['ab', 'AB', '12', ''.join(rng.sample('xyz', 2))])
+            else:
+                cells[a] = rng.random() < 0.5
+        fs = rng.choice(sheets)
+        for j in range(rng.choice([1, 2, 3])):
+            key = rng.choice([('num', str(rng.randint(0, 12))), ('neg', ('num', str(rng.randint(1, 4)))), ('num', '2.5'),
+                              ('str', 'ab'), ('bool', rng.random() < 0.5), ('ref', None if fs == ls else ls, 'E9'),
+                              ('err', '#N/A'), ('num', str(base[0]))])
+            col = ('ref', None if (fs == ls and rng.random() < 0.7) else ls,
+                   rng.choice(['E1', '$E$1', 'E$1']) + ':' + rng.choice([f'E{h}', f'$E${h}', f'E{h + 1}']))
+            args = [key, col]
+            mt = rng.choice([None, ('num', '1'), ('neg', ('num', '1')), ('num', '0'), ('num', '1'), ('neg', ('num', '1')),
+                             ('bool', True), ('num', '2'), ('str', '1'), ('err', '#VALUE!')])
+            if mt is not None:
+                args.append(mt)
+            a = f'{fs}!F{j + 1}'
+            trees[a] = ('call', rng.choice(['MATCH', 'MATCH', 'match']), args)
+            if rng.random() < 0.3:
+                trees[a] = ('bin', '&', trees[a], ('str', 'x'))
             cells[a] = {'f': '=' + render(trees[a])}
     # keys of the default sheet are sometimes given without the sheet
     out = {}
@@ -1107,7 +1157,10 @@ def run(ctx):
                     res.known.setdefault('D57', []).append({'workbook': wb, 'cell': a})
                     excused.add((id(wb), a))
                     continue
-                if if_array(wb, a, sub):
+                if if_array(wb, a, sub) or (real.startswith('X:runtime') and trees.get(a) is not None and any(
+                        if_array(wb, a, st) for _, st in subtrees(trees[a]) if st[0] == 'call')):
+                    # also when the blamed sub-formula is a reference back to this very cell (`=IF(A1:B2, f(B3))` in B3:
+                    # the model goes on into the branch and reports the cycle, the code raises at the condition)
                     res.count('outside:IF-array-condition')
                     excused.add((id(wb), a))
                     continue
